@@ -358,3 +358,68 @@ def ops_shared(rng):
             rows = [al.datum(rng) for _ in range(rng.randint(1, 3))]
             ops.append({"op": "FillNumpy", "s": 1, "rows": rows, "wf": "one"})
     return ops, 1, d
+
+
+# ------------------------------------------------------------------------------------------------
+# C13: derived views
+def view_tree(rng):
+    """a tree whose root is one of the four numeric binning primitives, a Categorize, or a 2-D histogram"""
+    child = rng.choice([D.Count(), D.Count(), D.Sum("y"), D.Average("y"), D.Bin(2, 0, 4, "y"), D.Minimize("y")])
+    k = rng.randrange(9)
+    if k == 0:
+        return D.Bin(rng.choice([2, 4]), 0, 4, "x", child), "1d"
+    if k == 1:
+        return D.Bin(3, -1, 2, "x", child), "1d"
+    if k == 2:
+        return D.SparselyBin(rng.choice([1, 2, F(1, 2)]), "x", child, origin=rng.choice([0, 1])), "1d"
+    if k == 3:
+        return D.CentrallyBin(rng.choice([[0, 2, 4], [-1, 1, 2, 5]]), "x", child), "1d"
+    if k == 4:
+        return D.IrregularlyBin(rng.choice([[1, 3], [0, 2, 4]]), "x", child), "1d"
+    if k == 5:
+        return D.Categorize("c", child), "cat"
+    if k == 6:
+        return D.Bin(*rng.choice([(2, 0, 4), (3, -1, 2), (4, 0, 4)]), "x", D.Bin(2, 0, 4, "y")), "2d"
+    if k == 7:
+        return D.SparselyBin(rng.choice([1, 2]), "x", D.SparselyBin(rng.choice([1, 2]), "y")), "2d"
+    return D.SparselyBin(1, "x", child, origin=F(1, 2)), "1d"
+
+
+def ops_views(rng):
+    d, kind = view_tree(rng)
+    if d["k"] == "Bin" and frac(d["lo"]) >= frac(d["hi"]):
+        d = dict(d, lo=Q(0), hi=Q(4))
+    al = DR.Alphabet(d)
+    fin = [v for v in al.xs if v[1] != 0]
+    ops = [{"op": "New", "s": 1, "d": d}]
+    nfill = rng.randint(0 if kind != "2d" else 1, 6)
+    for _ in range(nfill):
+        x = al.datum(rng)
+        if d["k"] == "SparselyBin" or kind == "2d":
+            x["x"] = rng.choice(fin)  # saturated sparse indexes are outside the view model
+            if kind == "2d":
+                x["y"] = rng.choice([v for v in al.ys if v[1] != 0])
+        ops.append({"op": "Fill", "s": 1, "x": x, "w": rng.choice(DR.POSWEIGHTS)})
+        if rng.random() < 0.3:
+            ops.append(_view_op(rng, d, kind, fin, al))
+    for _ in range(rng.randint(1, 4)):
+        ops.append(_view_op(rng, d, kind, fin, al))
+    return ops, 1, d
+
+
+def _view_op(rng, d, kind, fin, al):
+    if kind == "cat":
+        return {"op": "CatView", "a": 1, "probe": rng.sample(["a", "b", "zz", "NaN", "entries"], rng.randint(0, 3))}
+    if kind == "2d" and rng.random() < 0.7:
+        return {"op": "Grid2D", "a": 1}
+    qs = sorted(fin, key=frac)
+    mode = rng.choice(["none", "both", "both", "lo", "hi"])
+    op = {"op": "View", "a": 1, "hasLo": False, "qlo": Q(0), "hasHi": False, "qhi": Q(0),
+          "xs": [rng.choice(al.xs) for _ in range(rng.randint(0, 3))]}
+    op["xs"] = [x for x in op["xs"] if x != NAN]
+    if mode in ("both", "lo"):
+        op["hasLo"], op["qlo"] = True, rng.choice(qs[:-1])
+    if mode in ("both", "hi"):
+        cands = [q for q in qs if not op["hasLo"] or frac(q) > frac(op["qlo"])]
+        op["hasHi"], op["qhi"] = True, rng.choice(cands)
+    return op
